@@ -734,9 +734,32 @@ class GenericParamV:
             return LifetimeV(self.p.name)
         raise Unsupported('GenericParam field %d' % i)
 
-    def to_tokens(self, e, ts):
+    def decl_items(self):
         dts = getattr(self.p, 'decl_ts', None)
-        if dts is not None:
-            ts.items.extend(dts.items)
+        return list(dts.items) if dts is not None else list(toks(self.p.decl, 'gen:' + self.p.name).items)
+
+    def to_tokens(self, e, ts):
+        ts.items.extend(self.decl_items())
+
+    def impl_tokens(self, e, ts):
+        # syn's ImplGenerics: the declaration without its default (`T: Clone = i32` -> `T: Clone`, `const N: usize = 3` -> `const N: usize`)
+        items, depth, out = self.decl_items(), 0, []
+        for t in items:
+            if isinstance(t, TPunct) and t.ch == '<':
+                depth += 1
+            elif isinstance(t, TPunct) and t.ch == '>':
+                depth -= 1
+            elif isinstance(t, TPunct) and t.ch == '=' and depth == 0:
+                break
+            out.append(t)
+        ts.items.extend(out)
+
+    def name_tokens(self, e, ts):
+        # syn's TypeGenerics: lifetime / ident only
+        items = self.decl_items()
+        if self.p.kind == 'lt':
+            ts.items.extend(items[:2])
+        elif self.p.kind == 'const':
+            ts.items.append(items[1])
         else:
-            ts.items.extend(toks(self.p.decl, 'gen:' + self.p.name).items)
+            ts.items.append(items[0])
